@@ -67,6 +67,9 @@ def check_call(spec, report, rec):
         raise Violation("%s raised %r although no task fails" % (where, rec["exception"]))
     expected = [Engine.expected_value(base + i, i) for i in range(n)]
     got = list(rec["results"])
+    if spec["return_as"] == "generator_unordered":
+        # completion order is judged by C16; here: every result exactly once
+        got, expected = sorted(got, key=repr), sorted(expected, key=repr)
     if got != expected:
         raise Violation("%s returned %r, sequential loop gives %r" % (where, got[:40], expected[:40]))
     evs = SS.call_events(report, k)
